@@ -97,14 +97,18 @@ impl<T: RefCnt> HybridProtection<T> {
                 Self::from_inner(unsafe { Self::new(candidate, Some(debt)).into_inner() })
             }
             Err((unused_debt, replacement)) => {
+                // We got a (possibly) different pointer out. But that one is already protected.
+                // Take the ownership of it first: giving up the candidate below can run a
+                // destructor and if that one panics, the replacement needs to be released during
+                // the unwinding instead of being forgotten as a bare number.
+                let result = unsafe { Self::new(replacement as *mut _, None) };
                 // The debt is on the candidate we provided and it is unused, we so we just pay it
                 // back right away.
                 if !unused_debt.pay::<T>(candidate) {
                     unsafe { T::dec(candidate) };
                 }
-                // We got a (possibly) different pointer out. But that one is already protected and
-                // the slot is paid back.
-                unsafe { Self::new(replacement as *mut _, None) }
+                // The slot is paid back.
+                result
             }
         }
     }
